@@ -354,7 +354,7 @@ func vcRunC05(t *vcTrial, cfg vc05Cfg) {
 				rec.Conn.Writer().Flush()
 			}
 		}()
-		if vcWaitPoint(mark, vpWaitFlushBeforeBlock, rec.ID, 2*time.Second) {
+		if vcWaitFlushParked(mark, rec.ID, 2*time.Second) {
 			t.Stat("flusher_parked_before_actors", 1)
 		}
 	} else {
